@@ -20,6 +20,54 @@ type Replay struct {
 	// transit while the link to one requester is stalled
 	Concurrent bool `json:"concurrent,omitempty"`
 	SingleP    bool `json:"single_p,omitempty"`
+	// stale clean-up phase (monitor only): the real routeAdvertiseLoop runs over a
+	// forwardedControl entry older than 60 s
+	Stale    bool   `json:"stale,omitempty"`
+	Warm     int    `json:"warm,omitempty"`
+	OtherReq uint64 `json:"other_req,omitempty"`
+}
+
+func runStale(c *vh.Ctx, rp Replay) {
+	var o rh.StaleObs
+	var err error
+	if p := vh.Recover(func() { o, err = rh.RunStaleCleanup(rp.Warm, rp.OtherReq, answer) }); p != "" || err != nil {
+		c.Fail("panic", fmt.Sprintf("%s: %s %v", rp.Name, p, err), rp)
+		return
+	}
+	if o.Notes != "" {
+		c.Fail("harness-note", rp.Name+": "+o.Notes, rp)
+		return
+	}
+	if !o.Cleaned {
+		// the loop did not get to the entry within 10 s of wall time (overloaded machine): nothing to judge
+		c.Count("stale-cleanup-not-reached")
+		return
+	}
+	c.Count("stale-cleanup")
+	c.Case(fmt.Sprintf("stale/%d/%d", rp.Warm, rp.OtherReq), o.StaleFwd != o.StaleReq, rp)
+	ctx := fmt.Sprintf("%s: requester 1 has request %d (relayed under the transit's id %d, target 3 silent, entry older than 60 s) and request %d (relayed under %d to target 4) outstanding",
+		rp.Name, o.StaleReq, o.StaleFwd, o.OtherReq, o.OtherFwd)
+	// whatever the clean-up tells anybody must be addressed to the requester of the stale entry under that requester's id
+	for _, r := range o.Replies {
+		if r.To != 1 || r.ID != o.StaleReq {
+			c.Fail("control-reply-under-wrong-id", fmt.Sprintf("%s; while cleaning up the stale entry the transit sent peer %d a CONTROL_RESPONSE (ok=%v, %q) under id %d; the only request this can concern is requester 1's request %d",
+				ctx, r.To, r.OK, r.Data, r.ID, o.StaleReq), rp)
+			return
+		}
+	}
+	for _, r := range o.Late {
+		if r.To != 1 || r.ID != o.StaleReq {
+			c.Fail("control-response-misrouted", fmt.Sprintf("%s; target 3's late answer (under %d) was passed to peer %d under id %d", ctx, o.StaleFwd, r.To, r.ID), rp)
+			return
+		}
+	}
+	if !o.OtherKept {
+		c.Fail("control-forwarded-entry-lost", fmt.Sprintf("%s; the clean-up removed the young entry %d as well", ctx, o.OtherFwd), rp)
+		return
+	}
+	if len(o.After) != 1 || o.After[0].To != 1 || o.After[0].ID != o.OtherReq || !o.After[0].OK {
+		c.Fail("control-response-misrouted", fmt.Sprintf("%s; target 4's answer (under %d) came out as %+v; requester 1 must get it under its id %d", ctx, o.OtherFwd, o.After, o.OtherReq), rp)
+	}
 }
 
 func runConcurrent(c *vh.Ctx, rp Replay) {
@@ -101,6 +149,10 @@ func monitor(c *vh.Ctx, rp Replay, obs []rh.CObs) {
 		switch ev.Ev {
 		case "connect":
 			connected[ev.Peer], failing[ev.Peer] = true, false
+		case "sleep":
+			for p := range connected {
+				connected[p] = false
+			}
 		case "disconnect":
 			connected[ev.Peer] = false
 		case "setfail":
@@ -293,6 +345,11 @@ func generate(r *vh.Rand, n int, run *rh.ControlRunner) (Replay, []rh.CObs) {
 			if p != blockedOn {
 				do(rh.CEvent{Ev: "setfail", Peer: p, Fail: r.Chance(1, 2)})
 			}
+		case k == 19 && blockedOn == 0 && r.Chance(1, 3):
+			do(rh.CEvent{Ev: "sleep"})
+			for p := 1; p <= 4; p++ {
+				do(rh.CEvent{Ev: "connect", Peer: p})
+			}
 		case k == 19:
 			p := 1 + r.Intn(4)
 			if p == blockedOn {
@@ -348,6 +405,13 @@ func witnesses() []Replay {
 			rh.CEvent{Ev: "resp", From: 4, RefTag: 42, Tag: answer(4, 42)},
 			rh.CEvent{Ev: "resp", From: 4, RefTag: 41, Tag: answer(4, 41)},
 			rh.CEvent{Ev: "resp", From: 4, RefTag: 44, Tag: answer(4, 44)}),
+		w("sleep-between-relayed-requests",
+			rh.CEvent{Ev: "req", From: 1, ID: 1, Target: 3, Path: []int{3}, Tag: 51}, // relayed under the transit's id 1, target silent
+			rh.CEvent{Ev: "sleep"},
+			rh.CEvent{Ev: "connect", Peer: 1}, rh.CEvent{Ev: "connect", Peer: 2}, rh.CEvent{Ev: "connect", Peer: 3}, rh.CEvent{Ev: "connect", Peer: 4},
+			rh.CEvent{Ev: "req", From: 2, ID: 1, Target: 4, Path: []int{4}, Tag: 52}, // must travel under id 2: the id space is not restarted
+			rh.CEvent{Ev: "resp", From: 3, RefTag: 51, Tag: answer(3, 51)},           // the late answer belongs to requester 1
+			rh.CEvent{Ev: "resp", From: 4, RefTag: 52, Tag: answer(4, 52)}),
 		w("no-collision",
 			rh.CEvent{Ev: "req", From: 1, ID: 1, Target: 3, Path: []int{3}, Tag: 55},
 			rh.CEvent{Ev: "req", From: 2, ID: 2, Target: 4, Path: []int{4}, Tag: 66},
@@ -440,6 +504,8 @@ func main() {
 		}
 		if rp.Concurrent {
 			runConcurrent(c, rp)
+		} else if rp.Stale {
+			runStale(c, rp)
 		} else {
 			runScript(rp)
 		}
@@ -470,6 +536,20 @@ func main() {
 	if c.Replay == "" {
 		for i, n := 0, c.N(6, 60); i < n; i++ {
 			runConcurrent(c, Replay{Name: fmt.Sprintf("concurrent-responses-%d", i), Concurrent: true, SingleP: i%3 != 2})
+		}
+	}
+	if c.Replay == "" {
+		// the transit's counter is warm answered requests ahead of requester 1's numbering;
+		// requester 1's other outstanding request carries the very number the transit uses
+		// for the stale one (warm+1), a neighbouring one, or an unrelated one
+		sr := vh.NewRand(int64(c.Rand.U64()))
+		for i, n := 0, c.N(6, 40); i < n; i++ {
+			warm := 1 + sr.Intn(6)
+			other := uint64(warm + 1)
+			if i%3 == 2 {
+				other = uint64(2 + sr.Intn(9))
+			}
+			runStale(c, Replay{Name: fmt.Sprintf("stale-cleanup-%d", i), Stale: true, Warm: warm, OtherReq: other})
 		}
 	}
 	var sb strings.Builder
